@@ -679,7 +679,7 @@ func constString(c *ssa.Const) string {
 func (fa *FuncAnalysis) term0(v ssa.Value) *Term {
 	switch x := v.(type) {
 	case *ssa.Parameter:
-		return &Term{Op: "param", Name: x.Name()}
+		return &Term{Op: "param", Name: reviewedParamName(x)}
 	case *ssa.FreeVar:
 		return &Term{Op: "fv", Name: x.Name()}
 	case *ssa.Const:
@@ -868,3 +868,30 @@ func (fa *FuncAnalysis) replay(st memState, in ssa.Instruction) {
 		setDef(st, d.root, d.path, id)
 	}
 }
+
+// reviewedParamName: the name the parameter at this position had in the reviewed tree (baseline_params.go) while the
+// function still has the same number of parameters with the same types; the current name otherwise.
+func reviewedParamName(p *ssa.Parameter) string {
+	fn := p.Parent()
+	if fn == nil || fn.Parent() != nil {
+		return p.Name()
+	}
+	base, ok := baselineParams[FuncKey(fn)]
+	if !ok || len(base) != len(fn.Params) {
+		return p.Name()
+	}
+	idx := -1
+	for i, q := range fn.Params {
+		if typeKey(q.Type())+ptrMark(q.Type()) != base[i][1] {
+			return p.Name()
+		}
+		if q == p {
+			idx = i
+		}
+	}
+	if idx < 0 {
+		return p.Name()
+	}
+	return base[idx][0]
+}
+
